@@ -305,7 +305,7 @@ package memory
 //@ func (m *memory) Objects
 //@   opt terminates
 //@   opt strings opaque
-//@   opt axioms uuid-length
+//@   opt axioms uuid-length tstr-non-empty
 //@   requires Shape(m) && I1(m) && OwnSP(m) && I2SP(m) && I3SP(m) && m.#lock_rwmu == 0
 //@   requires wfNode(s) && p != nil && lo != nil && (objs != nil ==> objs.#closed == 0)
 //@   modifies m.#lock_rwmu, objs.#out, objs.#closed, lo.FilterOptions
@@ -315,15 +315,17 @@ package memory
 //@   ensures[options-restored] lo.FilterOptions == old(lo.FilterOptions)
 //@   nowrite[C07] lo.FilterOptions
 //@   ensures[sound] forall j int :: {objs.#out[j]} old(objs.#len) <= j && j < objs.#len ==> exists u string :: {m.idx[u]} has(m.idx, u) && su(m.idx[u].s) == su(s) && ppu(m.idx[u].p) == ppu(p) && Pmatch(p, m.idx[u].p) && InWindow(lo, m.idx[u].p) && objs.#out[j] == m.idx[u].o
+//@   ensures[complete-when-unpaged-and-unfiltered] result == nil && lo.MaxElements == 0 && !lo.LatestAnchor && old(lo.FilterOptions) == nil ==> forall u string :: {m.idx[u]} has(m.idx, u) && su(m.idx[u].s) == su(s) && ppu(m.idx[u].p) == ppu(p) && Pmatch(p, m.idx[u].p) && InWindow(lo, m.idx[u].p) ==> exists j int :: {objs.#out[j]} old(objs.#len) <= j && j < objs.#len && (exists v string :: {m.idx[v]} has(m.idx, v) && tstr(m.idx[v]) == tstr(m.idx[u]) && objs.#out[j] == m.idx[v].o)
 //@   loop 0 invariant[state] m.#lock_rwmu == 1 && objs != nil && objs.#closed == 0 && objs.#len >= old(objs.#len) && ckr != nil && st != nil && fresh(st) && fresh(ckr)
 //@   loop 0 invariant[sound] forall j int :: {objs.#out[j]} old(objs.#len) <= j && j < objs.#len ==> exists u string :: {m.idx[u]} has(m.idx, u) && su(m.idx[u].s) == su(s) && ppu(m.idx[u].p) == ppu(p) && Pmatch(p, m.idx[u].p) && InWindow(lo, m.idx[u].p) && objs.#out[j] == m.idx[u].o
+//@   loop 0 invariant[complete-so-far] old(lo.MaxElements) == 0 ==> !ckr.max && ckr.paddedPageSize <= 0 && objs.#len == old(objs.#len) + $i && (forall q int :: {strObs[q]} 0 <= q && q < $i ==> objs.#out[old(objs.#len) + q] == st[strObs[q]].o)
 //@   loop 0 invariant[st-holds-selected] forall x string :: {has(st, x)} has(st, x) ==> st[x] != nil && exists u string :: {m.idx[u]} has(m.idx, u) && st[x] == m.idx[u] && su(m.idx[u].s) == su(s) && ppu(m.idx[u].p) == ppu(p) && Pmatch(p, m.idx[u].p) && InWindow(lo, m.idx[u].p)
 //@   loop 0 invariant[strings-in-st] forall j int :: {strObs[j]} 0 <= j && j < len(strObs) ==> has(st, strObs[j])
 
 //@ func (m *memory) Subjects
 //@   opt terminates
 //@   opt strings opaque
-//@   opt axioms uuid-length
+//@   opt axioms uuid-length tstr-non-empty
 //@   requires Shape(m) && I1(m) && OwnPO(m) && I2PO(m) && I3PO(m) && m.#lock_rwmu == 0
 //@   requires p != nil && wfObj(o) && lo != nil && (subjs != nil ==> subjs.#closed == 0)
 //@   modifies m.#lock_rwmu, subjs.#out, subjs.#closed, lo.FilterOptions
@@ -333,15 +335,17 @@ package memory
 //@   ensures[options-restored] lo.FilterOptions == old(lo.FilterOptions)
 //@   nowrite[C07] lo.FilterOptions
 //@   ensures[sound] forall j int :: {subjs.#out[j]} old(subjs.#len) <= j && j < subjs.#len ==> exists u string :: {m.idx[u]} has(m.idx, u) && ppu(m.idx[u].p) == ppu(p) && ou(m.idx[u].o) == ou(o) && Pmatch(p, m.idx[u].p) && InWindow(lo, m.idx[u].p) && subjs.#out[j] == m.idx[u].s
+//@   ensures[complete-when-unpaged-and-unfiltered] result == nil && lo.MaxElements == 0 && !lo.LatestAnchor && old(lo.FilterOptions) == nil ==> forall u string :: {m.idx[u]} has(m.idx, u) && ppu(m.idx[u].p) == ppu(p) && ou(m.idx[u].o) == ou(o) && Pmatch(p, m.idx[u].p) && InWindow(lo, m.idx[u].p) ==> exists j int :: {subjs.#out[j]} old(subjs.#len) <= j && j < subjs.#len && (exists v string :: {m.idx[v]} has(m.idx, v) && tstr(m.idx[v]) == tstr(m.idx[u]) && subjs.#out[j] == m.idx[v].s)
 //@   loop 0 invariant[state] m.#lock_rwmu == 1 && subjs != nil && subjs.#closed == 0 && subjs.#len >= old(subjs.#len) && ckr != nil && st != nil && fresh(st) && fresh(ckr)
 //@   loop 0 invariant[sound] forall j int :: {subjs.#out[j]} old(subjs.#len) <= j && j < subjs.#len ==> exists u string :: {m.idx[u]} has(m.idx, u) && ppu(m.idx[u].p) == ppu(p) && ou(m.idx[u].o) == ou(o) && Pmatch(p, m.idx[u].p) && InWindow(lo, m.idx[u].p) && subjs.#out[j] == m.idx[u].s
+//@   loop 0 invariant[complete-so-far] old(lo.MaxElements) == 0 ==> !ckr.max && ckr.paddedPageSize <= 0 && subjs.#len == old(subjs.#len) + $i && (forall q int :: {strSubs[q]} 0 <= q && q < $i ==> subjs.#out[old(subjs.#len) + q] == st[strSubs[q]].s)
 //@   loop 0 invariant[st-holds-selected] forall x string :: {has(st, x)} has(st, x) ==> st[x] != nil && exists u string :: {m.idx[u]} has(m.idx, u) && st[x] == m.idx[u] && ppu(m.idx[u].p) == ppu(p) && ou(m.idx[u].o) == ou(o) && Pmatch(p, m.idx[u].p) && InWindow(lo, m.idx[u].p)
 //@   loop 0 invariant[strings-in-st] forall j int :: {strSubs[j]} 0 <= j && j < len(strSubs) ==> has(st, strSubs[j])
 
 //@ func (m *memory) PredicatesForSubjectAndObject
 //@   opt terminates
 //@   opt strings opaque
-//@   opt axioms uuid-length
+//@   opt axioms uuid-length tstr-non-empty
 //@   requires Shape(m) && I1(m) && OwnSO(m) && I2SO(m) && I3SO(m) && m.#lock_rwmu == 0
 //@   requires wfNode(s) && wfObj(o) && lo != nil && (prds != nil ==> prds.#closed == 0)
 //@   modifies m.#lock_rwmu, prds.#out, prds.#closed, lo.FilterOptions
@@ -351,15 +355,17 @@ package memory
 //@   ensures[options-restored] lo.FilterOptions == old(lo.FilterOptions)
 //@   nowrite[C07] lo.FilterOptions
 //@   ensures[sound] forall j int :: {prds.#out[j]} old(prds.#len) <= j && j < prds.#len ==> exists u string :: {m.idx[u]} has(m.idx, u) && su(m.idx[u].s) == su(s) && ou(m.idx[u].o) == ou(o) && true && InWindow(lo, m.idx[u].p) && prds.#out[j] == m.idx[u].p
+//@   ensures[complete-when-unpaged-and-unfiltered] result == nil && lo.MaxElements == 0 && !lo.LatestAnchor && old(lo.FilterOptions) == nil ==> forall u string :: {m.idx[u]} has(m.idx, u) && su(m.idx[u].s) == su(s) && ou(m.idx[u].o) == ou(o) && true && InWindow(lo, m.idx[u].p) ==> exists j int :: {prds.#out[j]} old(prds.#len) <= j && j < prds.#len && (exists v string :: {m.idx[v]} has(m.idx, v) && tstr(m.idx[v]) == tstr(m.idx[u]) && prds.#out[j] == m.idx[v].p)
 //@   loop 0 invariant[state] m.#lock_rwmu == 1 && prds != nil && prds.#closed == 0 && prds.#len >= old(prds.#len) && ckr != nil && st != nil && fresh(st) && fresh(ckr)
 //@   loop 0 invariant[sound] forall j int :: {prds.#out[j]} old(prds.#len) <= j && j < prds.#len ==> exists u string :: {m.idx[u]} has(m.idx, u) && su(m.idx[u].s) == su(s) && ou(m.idx[u].o) == ou(o) && true && InWindow(lo, m.idx[u].p) && prds.#out[j] == m.idx[u].p
+//@   loop 0 invariant[complete-so-far] old(lo.MaxElements) == 0 ==> !ckr.max && ckr.paddedPageSize <= 0 && prds.#len == old(prds.#len) + $i && (forall q int :: {strPrds[q]} 0 <= q && q < $i ==> prds.#out[old(prds.#len) + q] == st[strPrds[q]].p)
 //@   loop 0 invariant[st-holds-selected] forall x string :: {has(st, x)} has(st, x) ==> st[x] != nil && exists u string :: {m.idx[u]} has(m.idx, u) && st[x] == m.idx[u] && su(m.idx[u].s) == su(s) && ou(m.idx[u].o) == ou(o) && true && InWindow(lo, m.idx[u].p)
 //@   loop 0 invariant[strings-in-st] forall j int :: {strPrds[j]} 0 <= j && j < len(strPrds) ==> has(st, strPrds[j])
 
 //@ func (m *memory) PredicatesForSubject
 //@   opt terminates
 //@   opt strings opaque
-//@   opt axioms uuid-length
+//@   opt axioms uuid-length tstr-non-empty
 //@   requires Shape(m) && I1(m) && OwnS(m) && I2S(m) && I3S(m) && m.#lock_rwmu == 0
 //@   requires wfNode(s) && lo != nil && (prds != nil ==> prds.#closed == 0)
 //@   modifies m.#lock_rwmu, prds.#out, prds.#closed, lo.FilterOptions
@@ -369,15 +375,17 @@ package memory
 //@   ensures[options-restored] lo.FilterOptions == old(lo.FilterOptions)
 //@   nowrite[C07] lo.FilterOptions
 //@   ensures[sound] forall j int :: {prds.#out[j]} old(prds.#len) <= j && j < prds.#len ==> exists u string :: {m.idx[u]} has(m.idx, u) && su(m.idx[u].s) == su(s) && true && InWindow(lo, m.idx[u].p) && prds.#out[j] == m.idx[u].p
+//@   ensures[complete-when-unpaged-and-unfiltered] result == nil && lo.MaxElements == 0 && !lo.LatestAnchor && old(lo.FilterOptions) == nil ==> forall u string :: {m.idx[u]} has(m.idx, u) && su(m.idx[u].s) == su(s) && true && InWindow(lo, m.idx[u].p) ==> exists j int :: {prds.#out[j]} old(prds.#len) <= j && j < prds.#len && (exists v string :: {m.idx[v]} has(m.idx, v) && tstr(m.idx[v]) == tstr(m.idx[u]) && prds.#out[j] == m.idx[v].p)
 //@   loop 0 invariant[state] m.#lock_rwmu == 1 && prds != nil && prds.#closed == 0 && prds.#len >= old(prds.#len) && ckr != nil && st != nil && fresh(st) && fresh(ckr)
 //@   loop 0 invariant[sound] forall j int :: {prds.#out[j]} old(prds.#len) <= j && j < prds.#len ==> exists u string :: {m.idx[u]} has(m.idx, u) && su(m.idx[u].s) == su(s) && true && InWindow(lo, m.idx[u].p) && prds.#out[j] == m.idx[u].p
+//@   loop 0 invariant[complete-so-far] old(lo.MaxElements) == 0 ==> !ckr.max && ckr.paddedPageSize <= 0 && prds.#len == old(prds.#len) + $i && (forall q int :: {strPrds[q]} 0 <= q && q < $i ==> prds.#out[old(prds.#len) + q] == st[strPrds[q]].p)
 //@   loop 0 invariant[st-holds-selected] forall x string :: {has(st, x)} has(st, x) ==> st[x] != nil && exists u string :: {m.idx[u]} has(m.idx, u) && st[x] == m.idx[u] && su(m.idx[u].s) == su(s) && true && InWindow(lo, m.idx[u].p)
 //@   loop 0 invariant[strings-in-st] forall j int :: {strPrds[j]} 0 <= j && j < len(strPrds) ==> has(st, strPrds[j])
 
 //@ func (m *memory) PredicatesForObject
 //@   opt terminates
 //@   opt strings opaque
-//@   opt axioms uuid-length
+//@   opt axioms uuid-length tstr-non-empty
 //@   requires Shape(m) && I1(m) && OwnO(m) && I2O(m) && I3O(m) && m.#lock_rwmu == 0
 //@   requires wfObj(o) && lo != nil && (prds != nil ==> prds.#closed == 0)
 //@   modifies m.#lock_rwmu, prds.#out, prds.#closed, lo.FilterOptions
@@ -387,15 +395,17 @@ package memory
 //@   ensures[options-restored] lo.FilterOptions == old(lo.FilterOptions)
 //@   nowrite[C07] lo.FilterOptions
 //@   ensures[sound] forall j int :: {prds.#out[j]} old(prds.#len) <= j && j < prds.#len ==> exists u string :: {m.idx[u]} has(m.idx, u) && ou(m.idx[u].o) == ou(o) && true && InWindow(lo, m.idx[u].p) && prds.#out[j] == m.idx[u].p
+//@   ensures[complete-when-unpaged-and-unfiltered] result == nil && lo.MaxElements == 0 && !lo.LatestAnchor && old(lo.FilterOptions) == nil ==> forall u string :: {m.idx[u]} has(m.idx, u) && ou(m.idx[u].o) == ou(o) && true && InWindow(lo, m.idx[u].p) ==> exists j int :: {prds.#out[j]} old(prds.#len) <= j && j < prds.#len && (exists v string :: {m.idx[v]} has(m.idx, v) && tstr(m.idx[v]) == tstr(m.idx[u]) && prds.#out[j] == m.idx[v].p)
 //@   loop 0 invariant[state] m.#lock_rwmu == 1 && prds != nil && prds.#closed == 0 && prds.#len >= old(prds.#len) && ckr != nil && st != nil && fresh(st) && fresh(ckr)
 //@   loop 0 invariant[sound] forall j int :: {prds.#out[j]} old(prds.#len) <= j && j < prds.#len ==> exists u string :: {m.idx[u]} has(m.idx, u) && ou(m.idx[u].o) == ou(o) && true && InWindow(lo, m.idx[u].p) && prds.#out[j] == m.idx[u].p
+//@   loop 0 invariant[complete-so-far] old(lo.MaxElements) == 0 ==> !ckr.max && ckr.paddedPageSize <= 0 && prds.#len == old(prds.#len) + $i && (forall q int :: {strPrds[q]} 0 <= q && q < $i ==> prds.#out[old(prds.#len) + q] == st[strPrds[q]].p)
 //@   loop 0 invariant[st-holds-selected] forall x string :: {has(st, x)} has(st, x) ==> st[x] != nil && exists u string :: {m.idx[u]} has(m.idx, u) && st[x] == m.idx[u] && ou(m.idx[u].o) == ou(o) && true && InWindow(lo, m.idx[u].p)
 //@   loop 0 invariant[strings-in-st] forall j int :: {strPrds[j]} 0 <= j && j < len(strPrds) ==> has(st, strPrds[j])
 
 //@ func (m *memory) TriplesForSubject
 //@   opt terminates
 //@   opt strings opaque
-//@   opt axioms uuid-length
+//@   opt axioms uuid-length tstr-non-empty
 //@   requires Shape(m) && I1(m) && OwnS(m) && I2S(m) && I3S(m) && m.#lock_rwmu == 0
 //@   requires wfNode(s) && lo != nil && (trpls != nil ==> trpls.#closed == 0)
 //@   modifies m.#lock_rwmu, trpls.#out, trpls.#closed, lo.FilterOptions
@@ -405,15 +415,17 @@ package memory
 //@   ensures[options-restored] lo.FilterOptions == old(lo.FilterOptions)
 //@   nowrite[C07] lo.FilterOptions
 //@   ensures[sound] forall j int :: {trpls.#out[j]} old(trpls.#len) <= j && j < trpls.#len ==> exists u string :: {m.idx[u]} has(m.idx, u) && su(m.idx[u].s) == su(s) && true && InWindow(lo, m.idx[u].p) && trpls.#out[j] == m.idx[u]
+//@   ensures[complete-when-unpaged-and-unfiltered] result == nil && lo.MaxElements == 0 && !lo.LatestAnchor && old(lo.FilterOptions) == nil ==> forall u string :: {m.idx[u]} has(m.idx, u) && su(m.idx[u].s) == su(s) && true && InWindow(lo, m.idx[u].p) ==> exists j int :: {trpls.#out[j]} old(trpls.#len) <= j && j < trpls.#len && (exists v string :: {m.idx[v]} has(m.idx, v) && tstr(m.idx[v]) == tstr(m.idx[u]) && trpls.#out[j] == m.idx[v])
 //@   loop 0 invariant[state] m.#lock_rwmu == 1 && trpls != nil && trpls.#closed == 0 && trpls.#len >= old(trpls.#len) && ckr != nil && st != nil && fresh(st) && fresh(ckr)
 //@   loop 0 invariant[sound] forall j int :: {trpls.#out[j]} old(trpls.#len) <= j && j < trpls.#len ==> exists u string :: {m.idx[u]} has(m.idx, u) && su(m.idx[u].s) == su(s) && true && InWindow(lo, m.idx[u].p) && trpls.#out[j] == m.idx[u]
+//@   loop 0 invariant[complete-so-far] old(lo.MaxElements) == 0 ==> !ckr.max && ckr.paddedPageSize <= 0 && trpls.#len == old(trpls.#len) + $i && (forall q int :: {strTrpls[q]} 0 <= q && q < $i ==> trpls.#out[old(trpls.#len) + q] == st[strTrpls[q]])
 //@   loop 0 invariant[st-holds-selected] forall x string :: {has(st, x)} has(st, x) ==> st[x] != nil && exists u string :: {m.idx[u]} has(m.idx, u) && st[x] == m.idx[u] && su(m.idx[u].s) == su(s) && true && InWindow(lo, m.idx[u].p)
 //@   loop 0 invariant[strings-in-st] forall j int :: {strTrpls[j]} 0 <= j && j < len(strTrpls) ==> has(st, strTrpls[j])
 
 //@ func (m *memory) TriplesForPredicate
 //@   opt terminates
 //@   opt strings opaque
-//@   opt axioms uuid-length
+//@   opt axioms uuid-length tstr-non-empty
 //@   requires Shape(m) && I1(m) && OwnP(m) && I2P(m) && I3P(m) && m.#lock_rwmu == 0
 //@   requires p != nil && lo != nil && (trpls != nil ==> trpls.#closed == 0)
 //@   modifies m.#lock_rwmu, trpls.#out, trpls.#closed, lo.FilterOptions
@@ -423,15 +435,17 @@ package memory
 //@   ensures[options-restored] lo.FilterOptions == old(lo.FilterOptions)
 //@   nowrite[C07] lo.FilterOptions
 //@   ensures[sound] forall j int :: {trpls.#out[j]} old(trpls.#len) <= j && j < trpls.#len ==> exists u string :: {m.idx[u]} has(m.idx, u) && ppu(m.idx[u].p) == ppu(p) && Pmatch(p, m.idx[u].p) && InWindow(lo, m.idx[u].p) && trpls.#out[j] == m.idx[u]
+//@   ensures[complete-when-unpaged-and-unfiltered] result == nil && lo.MaxElements == 0 && !lo.LatestAnchor && old(lo.FilterOptions) == nil ==> forall u string :: {m.idx[u]} has(m.idx, u) && ppu(m.idx[u].p) == ppu(p) && Pmatch(p, m.idx[u].p) && InWindow(lo, m.idx[u].p) ==> exists j int :: {trpls.#out[j]} old(trpls.#len) <= j && j < trpls.#len && (exists v string :: {m.idx[v]} has(m.idx, v) && tstr(m.idx[v]) == tstr(m.idx[u]) && trpls.#out[j] == m.idx[v])
 //@   loop 0 invariant[state] m.#lock_rwmu == 1 && trpls != nil && trpls.#closed == 0 && trpls.#len >= old(trpls.#len) && ckr != nil && st != nil && fresh(st) && fresh(ckr)
 //@   loop 0 invariant[sound] forall j int :: {trpls.#out[j]} old(trpls.#len) <= j && j < trpls.#len ==> exists u string :: {m.idx[u]} has(m.idx, u) && ppu(m.idx[u].p) == ppu(p) && Pmatch(p, m.idx[u].p) && InWindow(lo, m.idx[u].p) && trpls.#out[j] == m.idx[u]
+//@   loop 0 invariant[complete-so-far] old(lo.MaxElements) == 0 ==> !ckr.max && ckr.paddedPageSize <= 0 && trpls.#len == old(trpls.#len) + $i && (forall q int :: {strTrpls[q]} 0 <= q && q < $i ==> trpls.#out[old(trpls.#len) + q] == st[strTrpls[q]])
 //@   loop 0 invariant[st-holds-selected] forall x string :: {has(st, x)} has(st, x) ==> st[x] != nil && exists u string :: {m.idx[u]} has(m.idx, u) && st[x] == m.idx[u] && ppu(m.idx[u].p) == ppu(p) && Pmatch(p, m.idx[u].p) && InWindow(lo, m.idx[u].p)
 //@   loop 0 invariant[strings-in-st] forall j int :: {strTrpls[j]} 0 <= j && j < len(strTrpls) ==> has(st, strTrpls[j])
 
 //@ func (m *memory) TriplesForObject
 //@   opt terminates
 //@   opt strings opaque
-//@   opt axioms uuid-length
+//@   opt axioms uuid-length tstr-non-empty
 //@   requires Shape(m) && I1(m) && OwnO(m) && I2O(m) && I3O(m) && m.#lock_rwmu == 0
 //@   requires wfObj(o) && lo != nil && (trpls != nil ==> trpls.#closed == 0)
 //@   modifies m.#lock_rwmu, trpls.#out, trpls.#closed, lo.FilterOptions
@@ -441,15 +455,17 @@ package memory
 //@   ensures[options-restored] lo.FilterOptions == old(lo.FilterOptions)
 //@   nowrite[C07] lo.FilterOptions
 //@   ensures[sound] forall j int :: {trpls.#out[j]} old(trpls.#len) <= j && j < trpls.#len ==> exists u string :: {m.idx[u]} has(m.idx, u) && ou(m.idx[u].o) == ou(o) && true && InWindow(lo, m.idx[u].p) && trpls.#out[j] == m.idx[u]
+//@   ensures[complete-when-unpaged-and-unfiltered] result == nil && lo.MaxElements == 0 && !lo.LatestAnchor && old(lo.FilterOptions) == nil ==> forall u string :: {m.idx[u]} has(m.idx, u) && ou(m.idx[u].o) == ou(o) && true && InWindow(lo, m.idx[u].p) ==> exists j int :: {trpls.#out[j]} old(trpls.#len) <= j && j < trpls.#len && (exists v string :: {m.idx[v]} has(m.idx, v) && tstr(m.idx[v]) == tstr(m.idx[u]) && trpls.#out[j] == m.idx[v])
 //@   loop 0 invariant[state] m.#lock_rwmu == 1 && trpls != nil && trpls.#closed == 0 && trpls.#len >= old(trpls.#len) && ckr != nil && st != nil && fresh(st) && fresh(ckr)
 //@   loop 0 invariant[sound] forall j int :: {trpls.#out[j]} old(trpls.#len) <= j && j < trpls.#len ==> exists u string :: {m.idx[u]} has(m.idx, u) && ou(m.idx[u].o) == ou(o) && true && InWindow(lo, m.idx[u].p) && trpls.#out[j] == m.idx[u]
+//@   loop 0 invariant[complete-so-far] old(lo.MaxElements) == 0 ==> !ckr.max && ckr.paddedPageSize <= 0 && trpls.#len == old(trpls.#len) + $i && (forall q int :: {strTrpls[q]} 0 <= q && q < $i ==> trpls.#out[old(trpls.#len) + q] == st[strTrpls[q]])
 //@   loop 0 invariant[st-holds-selected] forall x string :: {has(st, x)} has(st, x) ==> st[x] != nil && exists u string :: {m.idx[u]} has(m.idx, u) && st[x] == m.idx[u] && ou(m.idx[u].o) == ou(o) && true && InWindow(lo, m.idx[u].p)
 //@   loop 0 invariant[strings-in-st] forall j int :: {strTrpls[j]} 0 <= j && j < len(strTrpls) ==> has(st, strTrpls[j])
 
 //@ func (m *memory) TriplesForSubjectAndPredicate
 //@   opt terminates
 //@   opt strings opaque
-//@   opt axioms uuid-length
+//@   opt axioms uuid-length tstr-non-empty
 //@   requires Shape(m) && I1(m) && OwnSP(m) && I2SP(m) && I3SP(m) && m.#lock_rwmu == 0
 //@   requires wfNode(s) && p != nil && lo != nil && (trpls != nil ==> trpls.#closed == 0)
 //@   modifies m.#lock_rwmu, trpls.#out, trpls.#closed, lo.FilterOptions
@@ -459,15 +475,17 @@ package memory
 //@   ensures[options-restored] lo.FilterOptions == old(lo.FilterOptions)
 //@   nowrite[C07] lo.FilterOptions
 //@   ensures[sound] forall j int :: {trpls.#out[j]} old(trpls.#len) <= j && j < trpls.#len ==> exists u string :: {m.idx[u]} has(m.idx, u) && su(m.idx[u].s) == su(s) && ppu(m.idx[u].p) == ppu(p) && Pmatch(p, m.idx[u].p) && InWindow(lo, m.idx[u].p) && trpls.#out[j] == m.idx[u]
+//@   ensures[complete-when-unpaged-and-unfiltered] result == nil && lo.MaxElements == 0 && !lo.LatestAnchor && old(lo.FilterOptions) == nil ==> forall u string :: {m.idx[u]} has(m.idx, u) && su(m.idx[u].s) == su(s) && ppu(m.idx[u].p) == ppu(p) && Pmatch(p, m.idx[u].p) && InWindow(lo, m.idx[u].p) ==> exists j int :: {trpls.#out[j]} old(trpls.#len) <= j && j < trpls.#len && (exists v string :: {m.idx[v]} has(m.idx, v) && tstr(m.idx[v]) == tstr(m.idx[u]) && trpls.#out[j] == m.idx[v])
 //@   loop 0 invariant[state] m.#lock_rwmu == 1 && trpls != nil && trpls.#closed == 0 && trpls.#len >= old(trpls.#len) && ckr != nil && st != nil && fresh(st) && fresh(ckr)
 //@   loop 0 invariant[sound] forall j int :: {trpls.#out[j]} old(trpls.#len) <= j && j < trpls.#len ==> exists u string :: {m.idx[u]} has(m.idx, u) && su(m.idx[u].s) == su(s) && ppu(m.idx[u].p) == ppu(p) && Pmatch(p, m.idx[u].p) && InWindow(lo, m.idx[u].p) && trpls.#out[j] == m.idx[u]
+//@   loop 0 invariant[complete-so-far] old(lo.MaxElements) == 0 ==> !ckr.max && ckr.paddedPageSize <= 0 && trpls.#len == old(trpls.#len) + $i && (forall q int :: {strTrpls[q]} 0 <= q && q < $i ==> trpls.#out[old(trpls.#len) + q] == st[strTrpls[q]])
 //@   loop 0 invariant[st-holds-selected] forall x string :: {has(st, x)} has(st, x) ==> st[x] != nil && exists u string :: {m.idx[u]} has(m.idx, u) && st[x] == m.idx[u] && su(m.idx[u].s) == su(s) && ppu(m.idx[u].p) == ppu(p) && Pmatch(p, m.idx[u].p) && InWindow(lo, m.idx[u].p)
 //@   loop 0 invariant[strings-in-st] forall j int :: {strTrpls[j]} 0 <= j && j < len(strTrpls) ==> has(st, strTrpls[j])
 
 //@ func (m *memory) TriplesForPredicateAndObject
 //@   opt terminates
 //@   opt strings opaque
-//@   opt axioms uuid-length
+//@   opt axioms uuid-length tstr-non-empty
 //@   requires Shape(m) && I1(m) && OwnPO(m) && I2PO(m) && I3PO(m) && m.#lock_rwmu == 0
 //@   requires p != nil && wfObj(o) && lo != nil && (trpls != nil ==> trpls.#closed == 0)
 //@   modifies m.#lock_rwmu, trpls.#out, trpls.#closed, lo.FilterOptions
@@ -477,15 +495,17 @@ package memory
 //@   ensures[options-restored] lo.FilterOptions == old(lo.FilterOptions)
 //@   nowrite[C07] lo.FilterOptions
 //@   ensures[sound] forall j int :: {trpls.#out[j]} old(trpls.#len) <= j && j < trpls.#len ==> exists u string :: {m.idx[u]} has(m.idx, u) && ppu(m.idx[u].p) == ppu(p) && ou(m.idx[u].o) == ou(o) && Pmatch(p, m.idx[u].p) && InWindow(lo, m.idx[u].p) && trpls.#out[j] == m.idx[u]
+//@   ensures[complete-when-unpaged-and-unfiltered] result == nil && lo.MaxElements == 0 && !lo.LatestAnchor && old(lo.FilterOptions) == nil ==> forall u string :: {m.idx[u]} has(m.idx, u) && ppu(m.idx[u].p) == ppu(p) && ou(m.idx[u].o) == ou(o) && Pmatch(p, m.idx[u].p) && InWindow(lo, m.idx[u].p) ==> exists j int :: {trpls.#out[j]} old(trpls.#len) <= j && j < trpls.#len && (exists v string :: {m.idx[v]} has(m.idx, v) && tstr(m.idx[v]) == tstr(m.idx[u]) && trpls.#out[j] == m.idx[v])
 //@   loop 0 invariant[state] m.#lock_rwmu == 1 && trpls != nil && trpls.#closed == 0 && trpls.#len >= old(trpls.#len) && ckr != nil && st != nil && fresh(st) && fresh(ckr)
 //@   loop 0 invariant[sound] forall j int :: {trpls.#out[j]} old(trpls.#len) <= j && j < trpls.#len ==> exists u string :: {m.idx[u]} has(m.idx, u) && ppu(m.idx[u].p) == ppu(p) && ou(m.idx[u].o) == ou(o) && Pmatch(p, m.idx[u].p) && InWindow(lo, m.idx[u].p) && trpls.#out[j] == m.idx[u]
+//@   loop 0 invariant[complete-so-far] old(lo.MaxElements) == 0 ==> !ckr.max && ckr.paddedPageSize <= 0 && trpls.#len == old(trpls.#len) + $i && (forall q int :: {strTrpls[q]} 0 <= q && q < $i ==> trpls.#out[old(trpls.#len) + q] == st[strTrpls[q]])
 //@   loop 0 invariant[st-holds-selected] forall x string :: {has(st, x)} has(st, x) ==> st[x] != nil && exists u string :: {m.idx[u]} has(m.idx, u) && st[x] == m.idx[u] && ppu(m.idx[u].p) == ppu(p) && ou(m.idx[u].o) == ou(o) && Pmatch(p, m.idx[u].p) && InWindow(lo, m.idx[u].p)
 //@   loop 0 invariant[strings-in-st] forall j int :: {strTrpls[j]} 0 <= j && j < len(strTrpls) ==> has(st, strTrpls[j])
 
 //@ func (m *memory) Triples
 //@   opt terminates
 //@   opt strings opaque
-//@   opt axioms uuid-length
+//@   opt axioms uuid-length tstr-non-empty
 //@   requires Shape(m) && I1(m) && m.#lock_rwmu == 0
 //@   requires true && lo != nil && (trpls != nil ==> trpls.#closed == 0)
 //@   modifies m.#lock_rwmu, trpls.#out, trpls.#closed, lo.FilterOptions
@@ -495,7 +515,9 @@ package memory
 //@   ensures[options-restored] lo.FilterOptions == old(lo.FilterOptions)
 //@   nowrite[C07] lo.FilterOptions
 //@   ensures[sound] forall j int :: {trpls.#out[j]} old(trpls.#len) <= j && j < trpls.#len ==> exists u string :: {m.idx[u]} has(m.idx, u) && true && true && InWindow(lo, m.idx[u].p) && trpls.#out[j] == m.idx[u]
+//@   ensures[complete-when-unpaged-and-unfiltered] result == nil && lo.MaxElements == 0 && !lo.LatestAnchor && old(lo.FilterOptions) == nil ==> forall u string :: {m.idx[u]} has(m.idx, u) && true && true && InWindow(lo, m.idx[u].p) ==> exists j int :: {trpls.#out[j]} old(trpls.#len) <= j && j < trpls.#len && (exists v string :: {m.idx[v]} has(m.idx, v) && tstr(m.idx[v]) == tstr(m.idx[u]) && trpls.#out[j] == m.idx[v])
 //@   loop 0 invariant[state] m.#lock_rwmu == 1 && trpls != nil && trpls.#closed == 0 && trpls.#len >= old(trpls.#len) && ckr != nil && st != nil && fresh(st) && fresh(ckr)
 //@   loop 0 invariant[sound] forall j int :: {trpls.#out[j]} old(trpls.#len) <= j && j < trpls.#len ==> exists u string :: {m.idx[u]} has(m.idx, u) && true && true && InWindow(lo, m.idx[u].p) && trpls.#out[j] == m.idx[u]
+//@   loop 0 invariant[complete-so-far] old(lo.MaxElements) == 0 ==> !ckr.max && ckr.paddedPageSize <= 0 && trpls.#len == old(trpls.#len) + $i && (forall q int :: {strTrpls[q]} 0 <= q && q < $i ==> trpls.#out[old(trpls.#len) + q] == st[strTrpls[q]])
 //@   loop 0 invariant[st-holds-selected] forall x string :: {has(st, x)} has(st, x) ==> st[x] != nil && exists u string :: {m.idx[u]} has(m.idx, u) && st[x] == m.idx[u] && true && true && InWindow(lo, m.idx[u].p)
 //@   loop 0 invariant[strings-in-st] forall j int :: {strTrpls[j]} 0 <= j && j < len(strTrpls) ==> has(st, strTrpls[j])
